@@ -105,6 +105,11 @@ def gen_rt(seed, shard, nb, nr):
         yield ev
 
 
+def _setkw(e, args, **kw):
+    e.set(*args, **kw)
+    return e
+
+
 def gen_forms(seed, shard, n):
     from pymeeus.Epoch import Epoch
     rng = random.Random("forms/%s/%s" % (seed, shard))
@@ -115,9 +120,13 @@ def gen_forms(seed, shard, n):
         if y == 1582 and m == 10 and 5 <= d <= 14:
             d = 15
         h, mi = rng.choice([(0, 0), (23, 59), (12, 0), (rng.randrange(24), rng.randrange(60))])
-        s = rng.choice([0, 59, 30, rng.randrange(60), rng.randrange(60) + 0.5, rng.randrange(60) + 0.25, 59.75])
+        s = rng.choice([0, 59, 30, rng.randrange(60), rng.randrange(60) + 0.5, rng.randrange(60) + 0.25, 59.75,
+                        rng.randrange(60) + rng.randrange(1000000) / 1e6])            # incl. microsecond fractions
         dfrac = d + h / 24.0 + mi / 1440.0 + s / 86400.0
         forms = [("args", lambda: Epoch(y, m, d, h, mi, s)),
+                 ("args_utc_false", lambda: Epoch(y, m, d, h, mi, s, utc=False)),       # the documented flag, given explicitly
+                 ("tuple_utc_false", lambda: Epoch((y, m, d, h, mi, s), utc=False)),
+                 ("set_utc_false", lambda: _setkw(Epoch(2000, 1, 1), (y, m, d, h, mi, s), utc=False)),
                  ("tuple", lambda: Epoch((y, m, d, h, mi, s))),
                  ("list", lambda: Epoch([y, m, d, h, mi, s])),
                  ("short", lambda: Epoch(y, calwalk.SHORT[m - 1], d, h, mi, s)),
